@@ -31,6 +31,8 @@ K_EOP = "extendWidth-drops-unaligned-eop"
 K_DEADLOCK = "blockingReg-before-reduceWidth-deadlock"
 K_XREADY = "widthExtend-ready-reads-undefined-eop-behind-blockingReg"
 K_PR_EMPTY = "widthReduce-emptyBits-is-valid-count"
+K_PKT_BE = "packetH-byteEnable-detached"
+BE_KINDS = ["rd", "rb", "rr", "dc", "dl", "st", "ex", "re", "ex", "re"]      # ByteEnable streams: Packet.h converters apart (K_PKT_BE)
 
 REG_STAGES = ("rd", "rb", "rr", "dc", "dl", "ff", "fz")
 
@@ -215,11 +217,12 @@ def emptybits_widths_ok(stages, w, digits0):
     return True
 
 
-def gen_chain(rng, depth, allow_fifo=False, force=None, kinds=None, ebsafe=False, w=4):
+def gen_chain(rng, depth, allow_fifo=False, force=None, kinds=None, ebsafe=False, w=4, digits0=None, be=False):
     """returns (tokens, min_digits, nstall).  ebsafe (streams with EmptyBits): widthExtend ratio >= 2 (ratio 1 throws a
     DesignCheck with EmptyBits) and no blocking register in front of widthReduce (X at power-up, K_XREADY)."""
     for _ in range(400):
-        digits0 = rng.choice([1, 1, 1, 2, 3, 4, 6])
+        fixed0 = digits0
+        digits0 = fixed0 or (rng.choice([1, 1, 1, 2, 3, 4, 6]) if not be else rng.choice([1, 2, 2, 4, 6, 8, 12, 12]))
         digits = digits0
         toks = []
         nst = 0
@@ -232,12 +235,14 @@ def gen_chain(rng, depth, allow_fifo=False, force=None, kinds=None, ebsafe=False
             elif k == "st":
                 toks.append(f"st{nst}"); nst += 1
             elif k == "ex":
-                r = rng.choice([1, 2, 2, 3, 4])
+                r = rng.choice([1, 2, 2, 3, 4]) if not be else rng.choice([2, 3, 3, 4, 4])
                 if digits * r > 12:
                     ok = False; break
                 digits *= r; toks.append(f"ex{r}")
             elif k == "re":
                 divs = [r for r in (1, 2, 3, 4, 6) if digits % r == 0]
+                if be and any(r in (3, 4) for r in divs) and rng.random() < 0.7:
+                    divs = [r for r in divs if r in (3, 4)]
                 r = rng.choice(divs[1:] if len(divs) > 1 and rng.random() < 0.85 else divs)
                 digits //= r; toks.append(f"re{r}")
             elif k == "px":
@@ -263,6 +268,7 @@ def gen_chain(rng, depth, allow_fifo=False, force=None, kinds=None, ebsafe=False
             ok = False
         if ok and not chain_info(parse_chain(",".join(toks), digits0), True, True, eb=ebsafe)["x_poison"]:
             return toks, digits0, nst
+        digits0 = fixed0
     return ["rd"], 1, 0
 
 
@@ -270,10 +276,26 @@ VALID_KINDS = ["rand", "rand", "always", "bursty", "rand_sparse"]
 READY_KINDS = ["rand", "rand", "always", "bursty", "longstall", "alt", "adv_fall_on_rise", "adv_only_on_rise", "adv_fall_after_rise", "rand_sparse"]
 
 
-def gen_case(rng, cid, n, depth=None, hold=None, polite=None, allow_fifo=False, force=None, vkind=None, rkind=None, aligned=None):
+def be_fields(rng, digits0, style):
+    """byte enables (one character per byte, byte 0 first) and error bit of one beat"""
+    if style == "ones":
+        b = "1" * digits0
+    elif style == "sparse":
+        b = "".join("1" if rng.random() < 0.2 else "0" for _ in range(digits0))
+    else:
+        b = "".join(rng.choice("01") for _ in range(digits0))
+    return f" {b} {rng.randrange(2)}"
+
+
+def gen_case(rng, cid, n, depth=None, hold=None, polite=None, allow_fifo=False, force=None, vkind=None, rkind=None, aligned=None,
+             be=False, kinds=None, digits0=None, extra="", tokens=None):
     depth = depth or rng.choice([1, 1, 2, 2, 3, 4, 5])
-    toks, digits0, nst = gen_chain(rng, depth, allow_fifo, force)
-    w = rng.choice([3, 4])
+    fixed0 = digits0
+    toks, digits0, nst = gen_chain(rng, depth, allow_fifo, force, kinds=kinds, digits0=digits0, be=be)
+    if tokens:
+        toks, digits0, nst = list(tokens), fixed0, sum(1 for t in tokens if t.startswith("st"))
+    w = rng.choice([3, 4]) if not be else 8
+    bestyle = rng.choice(["rand", "rand", "rand", "sparse", "ones"])
     mw = 3
     hold = (rng.random() < 0.8) if hold is None else hold
     polite = (rng.random() < 0.7) if polite is None else polite
@@ -333,25 +355,30 @@ def gen_case(rng, cid, n, depth=None, hold=None, polite=None, allow_fifo=False, 
         d = ".".join(str(rng.randrange(1 << w)) for _ in range(digits0))
         e = 1 if rng.random() < pe else 0
         m = rng.randrange(1 << mw)
-        lines.append(f"P {vi} {d} {e} {m} {ri} {ctl}")
+        lines.append(f"P {vi} {d} {e} {m} {ri} {ctl}" + (be_fields(rng, digits0, bestyle) if be else ""))
     pp = 1 if rng.random() < 0.8 else 0
     header = (f"C {cid} w={w} mw={mw} min={digits0} chain={','.join(toks) or '-'} hold={int(hold)} polite={int(polite)} "
-              f"pp={pp} eopg={eopg} n={n} vk={vkind} rk={rkind}")
+              f"pp={pp} eopg={eopg} n={n} vk={vkind} rk={rkind}" + (f" be=1 bestyle={bestyle}" if be else "") + extra)
     return dict(header=header, plan=lines)
 
 
 PAUSE_MODES = ["before_last", "before_last", "before_single", "random", "every", "none"]
 
 
-def gen_pkt_case(rng, cid, n, eb, force=None, depth=None, pause=None, rkind=None, allow_fifo=False, expose=None):
+def gen_pkt_case(rng, cid, n, eb, force=None, depth=None, pause=None, rkind=None, allow_fifo=False, expose=None,
+                 be=False, kinds=None, digits0=None, extra="", tokens=None):
     """Packet family: the producer sends whole packets (prod=seq) with idle slots placed at packet-beat boundaries,
     in particular directly in front of the LAST beat of a packet / in front of a one-beat packet, while the consumer is
     (mostly) ready -- the schedules on which Packet.h widthReduce's beat bookkeeping (sentBits / bytesLeft / bitsLeft,
     advancing on transfer(out)) matters."""
     depth = depth or rng.choice([1, 1, 2, 3, 3, 4])
-    kinds = PKT_KINDS if eb else STAGE_KINDS
-    w = rng.choice([3, 4]) if not expose else expose[2]; mw = 3
-    toks, digits0, nst = gen_chain(rng, depth, allow_fifo, force, kinds=kinds, ebsafe=bool(eb) and not expose, w=w)
+    kinds = kinds or (PKT_KINDS if eb else STAGE_KINDS)
+    w = (rng.choice([3, 4]) if not be else 8) if not expose else expose[2]; mw = 3
+    bestyle = rng.choice(["rand", "rand", "rand", "sparse", "ones"])
+    fixed0 = digits0
+    toks, digits0, nst = gen_chain(rng, depth, allow_fifo, force, kinds=kinds, ebsafe=bool(eb) and not expose, w=w, digits0=digits0, be=be)
+    if tokens:
+        toks, digits0, nst = list(tokens), fixed0, sum(1 for t in tokens if t.startswith("st"))
     if expose:
         digits0, r_, w_ = expose
         toks, nst = [f"pr{r_}"], 0
@@ -402,10 +429,11 @@ def gen_pkt_case(rng, cid, n, eb, force=None, depth=None, pause=None, rkind=None
         it = items[i] if i < len(items) else junk()
         ri = r[i] if i < body else 1
         ctl = ("".join(str(sk[i]) for sk in stalls) if i < body else "0" * nst) or "-"
-        lines.append(f"P {it[0]} {'.'.join(str(x) for x in it[1])} {it[2]} {it[3]} {ri} {ctl}" + (f" {it[4]}" if eb else ""))
+        lines.append(f"P {it[0]} {'.'.join(str(x) for x in it[1])} {it[2]} {it[3]} {ri} {ctl}" + (f" {it[4]}" if eb else "")
+                     + (be_fields(rng, digits0, bestyle) if be else ""))
     pp = 1 if rng.random() < 0.8 else 0
     header = (f"C {cid} w={w} mw={mw} min={digits0} chain={','.join(toks) or '-'} hold=1 polite=1 pp={pp} eopg=0 eb={int(eb)} prod=seq "
-              f"n={n} vk=pkt_{pause} rk={rkind}" + (" expose=1" if expose else ""))
+              f"n={n} vk=pkt_{pause} rk={rkind}" + (" expose=1" if expose else "") + (f" be=1 bestyle={bestyle}" if be else "") + extra)
     return dict(header=header, plan=lines)
 
 
@@ -421,6 +449,48 @@ def gen_pkt_cases(seed, tiername, tag, count, n, eb):
                 cases.append(gen_pkt_case(rng, f"{tag}{i}", n, eb, force=f, depth=len(f), pause=pm, rkind=rk)); i += 1
     while len(cases) < count:
         cases.append(gen_pkt_case(rng, f"{tag}{i}", n, eb, allow_fifo=eb and rng.random() < 0.15)); i += 1
+    return cases
+
+
+# (digits of the chain input, chain): the width conversions named in the requirement, bytes = digits
+BE_SHAPES = [(6, ["re3"]), (8, ["re4"]), (12, ["re3"]), (12, ["re4"]), (8, ["re2"]), (12, ["re6"]), (2, ["ex3"]), (2, ["ex4"]), (4, ["ex3"]),
+             (3, ["ex4"]), (8, ["rd", "re4", "rr"]), (12, ["dc", "re3"]), (6, ["re3", "dl2"]), (2, ["ex3", "re3"]), (4, ["ex2", "rd", "re4"]),
+             (8, ["st0", "re4"]), (12, ["re3", "st0", "rd"])]
+
+
+def gen_be_cases(seed, tiername, tag, count, n):
+    """streams with ByteEnable (one enable bit per payload byte) and Error through every stage kind with a Coq machine or the
+    fifo; ratios 3 and 4 with 2- and 4-byte narrow beats (48->16, 64->16, 96->32 ...); random, sparse and all-ones enables"""
+    rng = random.Random(f"C16/{seed}/{tiername}/{tag}")
+    cases = []; i = 0
+    for d0, toks in BE_SHAPES:
+        for mode in ("cycle", "seq"):
+            if mode == "cycle":
+                cases.append(gen_case(rng, f"{tag}{i}", n, depth=len(toks), hold=True, polite=True, tokens=toks, be=True,
+                                      kinds=BE_KINDS, digits0=d0, extra=" shape=" + "+".join(toks)))
+            else:
+                cases.append(gen_pkt_case(rng, f"{tag}{i}", n, False, depth=len(toks), tokens=toks, be=True, kinds=BE_KINDS,
+                                          digits0=d0, extra=" shape=" + "+".join(toks)))
+            i += 1
+    for f in (["rd"], ["rb"], ["rr"], ["dc"], ["dl"], ["st"], ["ex"], ["re"], ["ff"], ["fz"]):
+        cases.append(gen_case(rng, f"{tag}{i}", n, depth=1, hold=True, polite=True, force=f, be=True, kinds=BE_KINDS, allow_fifo=True)); i += 1
+    while len(cases) < count:
+        fifo = rng.random() < 0.2
+        if rng.random() < 0.5:
+            cases.append(gen_case(rng, f"{tag}{i}", n, be=True, kinds=BE_KINDS, allow_fifo=fifo))
+        else:
+            cases.append(gen_pkt_case(rng, f"{tag}{i}", n, False, be=True, kinds=BE_KINDS, allow_fifo=fifo))
+        i += 1
+    return cases
+
+
+def gen_be_packeth_cases(seed, tiername, n):
+    """ByteEnable streams through the Packet.h converters (kept apart: K_PKT_BE)"""
+    rng = random.Random(f"C16/{seed}/{tiername}/be_packeth")
+    cases = []
+    for i, (d0, f) in enumerate([(8, ["pr"]), (6, ["pr"]), (12, ["pr"]), (4, ["pr"]), (1, ["px"]), (2, ["px"]), (4, ["px"]), (2, ["pm"]), (8, ["pm"]),
+                                 (8, ["rd", "pr", "rr"]), (2, ["px", "rd", "pr"]), (12, ["pr", "dc"])]):
+        cases.append(gen_pkt_case(rng, f"be_packeth{i}", n, False, depth=len(f), force=f, be=True, kinds=STAGE_KINDS, digits0=d0, extra=" packeth=1"))
     return cases
 
 
@@ -506,6 +576,11 @@ def parse_ev(line):
     lt = lhs.split(); rt = rhs.split()
     _, v, d, e, m, r, ctl = lt[:7]
     rin, vo, po, eo, mo = rt[:5]
+    if len(lt) == 9:
+        # stream with ByteEnable + Error: a digit of the oracle is the pair (byte, its enable bit), the meta word (txid, error)
+        be = lt[7]
+        return dict(v=v == "1", d=tuple((int(x), be[i]) for i, x in enumerate(d.split("."))), e=e == "1", m=(int(m), lt[8]), r=r == "1", ctl=ctl,
+                    rin=rin, vo=vo, po=po, eo=eo, mo=mo, eb=None, ebo=None, beo=rt[5] if len(rt) > 5 else None, erro=rt[6] if len(rt) > 6 else None)
     return dict(v=v == "1", d=tuple(int(x) for x in d.split(".")), e=e == "1", m=int(m), r=r == "1", ctl=ctl,
                 rin=rin, vo=vo, po=po, eo=eo, mo=mo, eb=int(lt[7]) if len(lt) > 7 else None, ebo=rt[5] if len(rt) > 5 else None)
 
@@ -547,7 +622,12 @@ def oracle_case(params, evlines):
         vo = e["vo"] == "1"; rin = e["rin"] == "1"
         if vo and (("X" in e["po"] and not has_px) or e["eo"] not in "01" or "X" in e["mo"]):
             return dict(event=idx, what="valid output beat with undefined payload / eop / meta", line=line), st, obs
-        ob = (digits_of(e["po"]), e["eo"] == "1", int(e["mo"])) if vo else None
+        if vo and e.get("beo") is not None:
+            if (("X" in e["beo"]) and not has_px) or e["erro"] not in "01":
+                return dict(event=idx, what="valid output beat with undefined byte enables / error", line=line), st, obs
+            ob = (tuple((x, e["beo"][i]) for i, x in enumerate(digits_of(e["po"]))), e["eo"] == "1", (int(e["mo"]), e["erro"]))
+        else:
+            ob = (digits_of(e["po"]), e["eo"] == "1", int(e["mo"])) if vo else None
         if ebmode and vo:
             ob = ob + (e["ebo"],)
         # hold rule on the real output wire
@@ -706,7 +786,7 @@ def run_cases(exe, drv, cases, tag):
 def new_agg():
     return dict(cases=0, events=0, hash=set(), classes=collections.Counter(), stage_hist=collections.Counter(), depth_hist=collections.Counter(),
                 pattern_hist=collections.Counter(), flag_hist=collections.Counter(), obs=collections.Counter(), nomodel=0, nontrivial_hashes=set(),
-                branches=collections.Counter(), pause_hist=collections.Counter())
+                branches=collections.Counter(), pause_hist=collections.Counter(), packeth_details=[], be_hist=collections.Counter())
 
 
 def compare(res, by_id, agg, mismatches, oracle_viol, xlines, samples):
@@ -714,12 +794,20 @@ def compare(res, by_id, agg, mismatches, oracle_viol, xlines, samples):
     for case in read_log(res["impl"]):
         mcase = next(model_cases, None) if model_cases else None
         if case[1] is None:
-            xlines.append(case[0]); continue
+            xid = case[0].split()[1] if len(case[0].split()) > 1 else ""
+            if "packeth=1" in (by_id.get(xid) or {}).get("header", ""):
+                agg["obs"][K_PKT_BE] += 1; agg["packeth_details"].append(case[0][:160])
+            else:
+                xlines.append(case[0])
+            continue
         hline, p, evs = case
+        packeth = p.get("packeth") == "1"
         agg["cases"] += 1; agg["events"] += len(evs)
         stages = parse_chain(p.get("chain", "-"))
         for k, a in stages:
             agg["stage_hist"][k] += 1
+        if p.get("be") == "1":
+            agg["be_hist"][f"shape={p.get('shape', 'random')} enables={p.get('bestyle')}"] += 1
         if "pkt_" in p.get("vk", ""):
             agg["pause_hist"][f"{p.get('vk')} eb={p.get('eb', '0')}"] += 1
         agg["depth_hist"][len(stages)] += 1
@@ -742,7 +830,10 @@ def compare(res, by_id, agg, mismatches, oracle_viol, xlines, samples):
                 else:
                     for i, (a, b) in enumerate(zip(evs, mevs)):
                         if a != b:
-                            mismatches.append(dict(case=hline, event=i, observed=a, expected=b, context=evs[max(0, i - 6):i + 1], src=src))
+                            if packeth:
+                                agg["obs"][K_PKT_BE] += 1; agg["packeth_details"].append(f"{hline.split('chain=')[1].split()[0]} min={p.get('min')}: real {a.split('|')[1].strip()} model {b.split('|')[1].strip()}")
+                            else:
+                                mismatches.append(dict(case=hline, event=i, observed=a, expected=b, context=evs[max(0, i - 6):i + 1], src=src))
                             break
         v, st, obs = oracle_case(p, evs)
         for kk, vv in st.items():
@@ -753,7 +844,9 @@ def compare(res, by_id, agg, mismatches, oracle_viol, xlines, samples):
             agg["branches"][kk] += vv
         if st.get("nontrivial"):
             agg["nontrivial_hashes"].add(h)
-        if v:
+        if v and packeth:
+            agg["obs"][K_PKT_BE] += 1; agg["packeth_details"].append(f"{hline.split('chain=')[1].split()[0]} min={p.get('min')}: {v['what'][:200]}")
+        elif v:
             v["case"] = hline; v["src"] = src
             oracle_viol.append(v)
         if len(samples) < 3 and len(evs) > 30 and st.get("nontrivial"):
@@ -832,9 +925,9 @@ def main():
 
     # ---------------- generated cases (tie + oracle)
     if tiername == "quick":
-        ntie, nfifo, npkt, npkteb, ncyc = 1500, 150, 500, 400, 200
+        ntie, nfifo, npkt, npkteb, nbe, ncyc = 1500, 150, 500, 400, 500, 200
     else:
-        ntie, nfifo, npkt, npkteb, ncyc = 15000, 1500, 5000, 4000, 360
+        ntie, nfifo, npkt, npkteb, nbe, ncyc = 15000, 1500, 5000, 4000, 5000, 360
     run_batch(gen_cases(seed, tiername, "tie", ntie, ncyc), "tie")
     # chains containing strm::fifo: no Coq machine -> independent oracle only
     run_batch(gen_cases(seed, tiername, "fifo", nfifo, ncyc, allow_fifo=True), "fifo")
@@ -844,6 +937,10 @@ def main():
     run_batch(gen_pkt_cases(seed, tiername, "pkteb", npkteb, ncyc, True), "pkteb")
     # single widthReduce stages on the shapes on which its Empty/EmptyBits output used to be wrong (fixed: 32e913f)
     run_batch(gen_expose_cases(seed, tiername, ncyc), "pkteb_expose")
+    # streams with ByteEnable + Error through every stage kind (ratios 3 / 4, 2- and 4-byte narrow beats)
+    run_batch(gen_be_cases(seed, tiername, "be", nbe, ncyc), "be")
+    # ... and through the Packet.h converters, kept apart (K_PKT_BE)
+    run_batch(gen_be_packeth_cases(seed, tiername, ncyc), "be_packeth")
 
     # ---------------- verdict
     tie_broken = bool(mismatches) or drv is None or not res["ok"] or bool(errors) or bool(xlines)
@@ -909,6 +1006,16 @@ def main():
             for kf in known:
                 if kf.startswith(key):
                     rep.known(kf)
+    # a confirmed defect of the real code (ByteEnable through the Packet.h converters): KNOWN-FINDING if listed, VIOLATION otherwise
+    if agg["obs"].get(K_PKT_BE):
+        listed = [kf for kf in known if kf.startswith(K_PKT_BE)]
+        if listed:
+            rep.known(listed[0])
+        else:
+            rep.violation(dict(property=CID, kind="byte-enable", what="Packet.h widthReduce / widthExtend on a stream with ByteEnable: the byte enables of a narrow beat are not the "
+                               "corresponding slice of the wide beat's byte enables (slice offset counter*W wraps in the counter's width), or the converter does not elaborate",
+                               occurrences=agg["obs"][K_PKT_BE], details=agg["packeth_details"][:8], how_to_replay="checks/C16.py (batch be_packeth)"), tag="packethbe")
+
     # ---------------- evidence
     cov = rep.cov
     cov["evaluations"] = agg["cases"]
@@ -927,6 +1034,7 @@ def main():
     cov["pattern_histogram"] = dict(sorted(agg["pattern_hist"].items()))
     cov["flag_histogram"] = dict(sorted(agg["flag_hist"].items()))
     cov["packet_pause_placement_histogram"] = dict(sorted(agg["pause_hist"].items()))
+    cov["byte_enable_shape_histogram"] = dict(sorted(agg["be_hist"].items()))
     cov["case_classes"] = dict(agg["classes"])
     cov["model_branches_single_stage_cases"] = dict(sorted(agg["branches"].items()))
     cov["by_design_observations"] = dict(agg["obs"])
